@@ -24,6 +24,17 @@ def cases(tier, rng):
     yield {'kind': 'mux', 'term': [['group_by', ['mod', 2], [['filter', ['lt', 0]], ['roll', 3, 2, [['to_list']]]]]], 'items': [1, 2, 3, 4]}
     yield {'kind': 'mux', 'term': [['roll', 5, 2, [['split', ['mod', 2], [['count', True]]]]], ['count', True]], 'items': []}
     yield {'kind': 'mux', 'term': [['roll', 2, 5, [['tee', 'zip', [[['count', False]], [['last']]]]]]], 'items': list(range(12))}
+    # time_split: every combination of timeouts / closing item / include flag, with the closing item first, in the
+    # middle and last, alone and under group_by and roll (slot reuse)
+    for aa in (None, 3):
+        for bb in (None, 2):
+            for closing in (None, ['mod_eq', 4, 3], ['is_even']):
+                for incl in (True, False):
+                    cfg = {'time': ['id'], 'active': aa, 'inactive': bb, 'closing': closing, 'include': incl}
+                    for items in ([3, 4, 5, 7, 8, 11, 12], [1, 2, 3], [2], [1, 3, 6, 7, 7, 15]):
+                        yield {'kind': 'mux', 'term': [['time_split', cfg, [['count', True]]]], 'items': items}
+                    yield {'kind': 'mux', 'term': [['group_by', ['mod', 2], [['time_split', cfg, [['last']]]]]], 'items': [3, 4, 5, 7, 8, 11, 12]}
+                    yield {'kind': 'mux', 'term': [['roll', 3, 3, [['time_split', cfg, [['to_list']]]]]], 'items': [3, 4, 5, 7, 8, 11, 12]}
     n = {'quick': 500, 'thorough': 8000, 'search': 600}[tier]
     for i in range(n):
         nest = 2 if tier != 'thorough' else rng.choice([2, 2, 3])
